@@ -419,6 +419,24 @@ def run_case(case):
         if not (same_bits(res2.t, res.t) and same_bits(res2.y, res.y)) or (res2.nfev, res2.njev, res2.status) != (res.nfev, res.njev, res.status):
             out.v("sparsity-changes-result", "jac_sparsity changes the result (pattern %s): %d vs %d samples, y_end %r vs %r" % (P.astype(int).tolist(), len(res2.t), len(res.t), res2.y[:, -1].tolist(), res.y[:, -1].tolist()), n=n)
         out.tags.append("sparsity-pattern")
+        # a Jacobian given by the caller is honoured also when a sparsity pattern is given with it: the run with both
+        # is the run with the Jacobian alone (the pattern problem is linear: its Jacobian is the coefficient matrix)
+        if n <= 3:
+            A = np.array([[(((r * 3 + c) % 5 + 1) * 0.25 * (-1.0 if r == c else 1.0)) if (mask >> (r * n + c)) & 1 else 0.0 for c in range(n)] for r in range(n)])
+            try:
+                cj, cb = Counter(), Counter()
+                rj = solve(case, cj, jac=A.copy())
+                rb = solve(case, cb, jac=A.copy(), jac_sparsity=sp.csc_matrix(P))
+                rc = solve(case, Counter(), jac=(lambda t, y, one: A.copy()), jac_sparsity=sp.csc_matrix(P))
+                for (lab, r2, c2b) in (("constant", rb, cb), ("callable", rc, None)):
+                    if not (same_bits(r2.t, rj.t) and same_bits(r2.y, rj.y)) or (r2.nfev, r2.nlu) != (rj.nfev, rj.nlu):
+                        out.v("jac-with-sparsity", "a %s Jacobian given together with jac_sparsity is not honoured (pattern %s): (nfev, nlu) %r vs %r with the Jacobian alone, %d vs %d samples" % (lab, P.astype(int).tolist(), (r2.nfev, r2.nlu), (rj.nfev, rj.nlu), len(r2.t), len(rj.t)), n=n)
+                if cb.n != cj.n:
+                    out.v("jac-with-sparsity", "with a constant Jacobian and jac_sparsity the right-hand side is called %d times, with the Jacobian alone %d times" % (cb.n, cj.n), n=n)
+                out.validated += 2
+                out.tags.append("jac-with-sparsity")
+            except BaseException as e:
+                out.v("jac-with-sparsity", "ivp.solve_ivp raised %s when jac and jac_sparsity were given together: %s" % (type(e).__name__, str(e)[:200]), n=n)
         if res.njev > 0:
             per_dense = (counter.n - res.nfev) / res.njev
             per_sparse = (c2.n - res2.nfev) / res2.njev
